@@ -360,4 +360,218 @@ theorem reach_objsInv {g : List NodeInfo} {s : State} (h : Reach g s) : ObjsInv 
   | init => exact objsInv_init g
   | step _ hen ih => exact objsInv_step hen ih
 
+
+/-! ### monotonicity: sentinels other than `_queued_locally` only disappear by `reset` -/
+
+theorem seen_mono {s : State} {e : Ev} {o : Obj} {y : Sentinel} (hinv : ObjsInv s)
+    (hne : e ≠ .reset o) (hy : y ≠ .queuedLocally)
+    (h : (s.m o).seen.has y = true) : ((apply s e).m o).seen.has y = true := by
+  have hy' : Sentinel.queuedLocally ≠ y := fun e => hy e.symm
+  rw [apply_m]
+  cases e <;> simp only [] <;> try exact h
+  all_goals first
+    | (split
+       · rename_i heq; subst heq
+         first
+           | (simp only [put, see, unq, toDisk, has_add, has_del]; simp [h, hy']; done)
+           | (exfalso; exact hne rfl)
+       · exact h)
+    | exact (hinv o).sub y h
+
+theorem disk_mono {s : State} {e : Ev} {o : Obj} {y : Sentinel}
+    (hne : e ≠ .reset o) (hy : y ≠ .queuedLocally)
+    (h : (s.m o).disk.has y = true) : ((apply s e).m o).disk.has y = true := by
+  have hy' : Sentinel.queuedLocally ≠ y := fun e => hy e.symm
+  rw [apply_m]
+  cases e <;> simp only [] <;> try exact h
+  all_goals first
+    | (split
+       · rename_i heq; subst heq
+         first
+           | (simp only [put, see, unq, toDisk, has_add, has_del]; simp [h, hy']; done)
+           | (exfalso; exact hne rfl)
+       · exact h)
+    | exact h
+
+/-- the only ways a `_complete` file comes into existence -/
+theorem complete_origin {s : State} {e : Ev} {o : Obj} (hen : enabled s e = true)
+    (h0 : (s.m o).disk.has .complete = false)
+    (h1 : ((apply s e).m o).disk.has .complete = true) :
+    e = .jobend o .complete ∨ (e = .W o .complete ∧ mrpWriteOk s o .complete = true) := by
+  rw [apply_m] at h1
+  cases e <;> simp only [] at h1 <;> try (simp [h0] at h1; done)
+  case W o' x =>
+    split at h1
+    · rename_i heq; subst heq
+      simp only [put, has_add, h0, Bool.or_false, decide_eq_true_eq] at h1
+      subst h1
+      rcases (en_W hen).2.2 with hd | hw
+      · simp [h0] at hd
+      · exact Or.inr ⟨rfl, hw⟩
+    · simp [h0] at h1
+  case R o' x => split at h1 <;> simp_all [see]
+  case D o' x => split at h1 <;> simp_all [see]
+  case U o' x => split at h1 <;> simp_all [unq, has_del]
+  case launch o' => split at h1 <;> simp_all [put, has_add]
+  case joblog o' => split at h1 <;> simp_all [toDisk, unq, has_add, has_del]
+  case jobend o' x =>
+    split at h1
+    · rename_i heq; subst heq
+      simp only [toDisk, has_add, h0, Bool.or_false, decide_eq_true_eq] at h1
+      subst h1; exact Or.inl rfl
+    · simp [h0] at h1
+  case silentfail o' => split at h1 <;> simp_all [put, has_add]
+  case reset o' => split at h1 <;> simp_all
+  case restart => simp_all [reload]
+
+theorem allChunksComplete_iff {s : State} {n f : Nat} :
+    allChunksComplete s n f = true ↔
+      ∀ i, i < s.nch n f → s.st ⟨n, f, .chunk i⟩ = some .complete := by
+  simp [allChunksComplete, chunkStates, chunkState, List.all_eq_true]
+
+
+/-! ### the submission history -/
+
+theorem apply_launches (s : State) (e : Ev) : (apply s e).launches =
+    match e with
+    | .launch o => (o, s.inc) :: s.launches
+    | _ => s.launches := by cases e <;> rfl
+
+theorem apply_resets (s : State) (e : Ev) : (apply s e).resets =
+    match e with
+    | .reset o => (o, s.inc) :: s.resets
+    | _ => s.resets := by cases e <;> rfl
+
+theorem apply_inc (s : State) (e : Ev) : (apply s e).inc =
+    match e with
+    | .restart => s.inc + 1
+    | _ => s.inc := by cases e <;> rfl
+
+theorem apply_phase (s : State) (e : Ev) : (apply s e).phase =
+    match e with
+    | .restart => .loading
+    | .crash => .crashed
+    | .refresh => .normal
+    | _ => s.phase := by cases e <;> rfl
+
+/-- Invariant of the ghost history of submissions and resets. -/
+structure LaunchInv (s : State) : Prop where
+  le : ∀ o i, (o, i) ∈ s.launches → i ≤ s.inc
+  ltLoading : s.phase = .loading → ∀ o i, (o, i) ∈ s.launches → i < s.inc
+  nodup : s.launches.Nodup
+  alive : ∀ o i, (o, i) ∈ s.launches →
+    (s.m o).disk.has .jobinfo = true ∨ ∃ k, i < k ∧ k ≤ s.inc ∧ (o, k) ∈ s.resets
+  relaunch : ∀ o i j, (o, i) ∈ s.launches → (o, j) ∈ s.launches → i < j →
+    ∃ k, i < k ∧ k ≤ j ∧ (o, k) ∈ s.resets
+
+theorem launchInv_frame {s s' : State} (h : LaunchInv s) (hl : s'.launches = s.launches)
+    (hr : s'.resets = s.resets) (hi : s'.inc = s.inc)
+    (hp : s'.phase = .loading → s.phase = .loading)
+    (hd : ∀ o, (s.m o).disk.has .jobinfo = true → (s'.m o).disk.has .jobinfo = true) :
+    LaunchInv s' := by
+  obtain ⟨h1, h2, h3, h4, h5⟩ := h
+  refine ⟨?_, ?_, ?_, ?_, ?_⟩
+  · rw [hl, hi]; exact h1
+  · intro hp'; rw [hl, hi]; exact h2 (hp hp')
+  · rw [hl]; exact h3
+  · intro o i hm; rw [hl] at hm; rw [hr, hi]
+    rcases h4 o i hm with a | a
+    · exact Or.inl (hd o a)
+    · exact Or.inr a
+  · rw [hl, hr]; exact h5
+
+theorem launchInv_step {s : State} {e : Ev} (hen : enabled s e = true) (hinv : ObjsInv s)
+    (h : LaunchInv s) : LaunchInv (apply s e) := by
+  have hdm : ∀ o', e ≠ .reset o' → (s.m o').disk.has .jobinfo = true →
+      ((apply s e).m o').disk.has .jobinfo = true :=
+    fun o' hne => disk_mono hne (by simp)
+  cases e
+  case launch o =>
+    obtain ⟨h1, h2, h3, h4, h5⟩ := h
+    have hl := en_launch hen
+    have hph : s.phase = .normal := by
+      unfold launchOk at hl; simp only [Bool.and_eq_true, beq_iff_eq] at hl; exact hl.1.1.1.1.1
+    have hnew : (o, s.inc) ∉ s.launches := by
+      unfold launchOk at hl; simp only [Bool.and_eq_true] at hl
+      have := hl.1.1.2; simpa using this
+    have hst : s.st o = none := (launchOk_facts hl).2.2
+    have hji : (s.m o).disk.has .jobinfo = false := by
+      have := (metaState_none hst).2.2.2.2.2
+      cases hd : (s.m o).disk.has .jobinfo
+      · rfl
+      · have := (hinv o).ji hd; simp_all
+    have hnewji : ((apply s (.launch o)).m o).disk.has .jobinfo = true := by
+      rw [apply_m]; simp [put, has_add]
+    refine ⟨?_, ?_, ?_, ?_, ?_⟩
+    · intro o' i hm
+      simp only [apply_launches, apply_inc, List.mem_cons, Prod.mk.injEq] at hm ⊢
+      rcases hm with ⟨_, rfl⟩ | hm
+      · exact Nat.le_refl _
+      · exact h1 o' i hm
+    · intro hp; simp [apply_phase, hph] at hp
+    · simp only [apply_launches]; exact List.nodup_cons.mpr ⟨hnew, h3⟩
+    · intro o' i hm
+      simp only [apply_launches, apply_inc, apply_resets, List.mem_cons, Prod.mk.injEq] at hm ⊢
+      rcases hm with ⟨rfl, rfl⟩ | hm
+      · exact Or.inl hnewji
+      · rcases h4 o' i hm with a | a
+        · exact Or.inl (hdm o' (by simp) a)
+        · exact Or.inr a
+    · intro o' i j hi hj hlt
+      simp only [apply_launches, apply_resets, List.mem_cons, Prod.mk.injEq] at hi hj ⊢
+      rcases hi with ⟨ho1, hi1⟩ | hi <;> rcases hj with ⟨ho2, hj1⟩ | hj
+      · omega
+      · subst ho1 hi1; exact absurd (h1 _ _ hj) (Nat.not_le_of_gt hlt)
+      · subst ho2 hj1
+        rcases h4 _ _ hi with a | a
+        · rw [hji] at a; cases a
+        · exact a
+      · exact h5 o' i j hi hj hlt
+  case reset o =>
+    obtain ⟨h1, h2, h3, h4, h5⟩ := h
+    have hr := en_reset hen
+    have hph : s.phase = .loading := by
+      unfold resetOk at hr; simp only [Bool.and_eq_true, beq_iff_eq] at hr; exact hr.1.1
+    refine ⟨?_, ?_, ?_, ?_, ?_⟩
+    · simpa [apply_launches, apply_inc] using h1
+    · intro _; simpa [apply_launches, apply_inc] using h2 hph
+    · simpa [apply_launches] using h3
+    · intro o' i hm
+      simp only [apply_launches, apply_inc, apply_resets, List.mem_cons, Prod.mk.injEq] at hm ⊢
+      by_cases ho : o' = o
+      · subst ho
+        exact Or.inr ⟨s.inc, h2 hph _ _ hm, Nat.le_refl _, Or.inl ⟨rfl, rfl⟩⟩
+      · rcases h4 o' i hm with a | ⟨k, a, b, c⟩
+        · exact Or.inl (hdm o' (by simp; exact fun e => ho e.symm) a)
+        · exact Or.inr ⟨k, a, b, Or.inr c⟩
+    · intro o' i j hi hj hlt
+      simp only [apply_launches, apply_resets, List.mem_cons, Prod.mk.injEq] at hi hj ⊢
+      obtain ⟨k, a, b, c⟩ := h5 o' i j hi hj hlt
+      exact ⟨k, a, b, Or.inr c⟩
+  case restart =>
+    obtain ⟨h1, h2, h3, h4, h5⟩ := h
+    refine ⟨?_, ?_, ?_, ?_, ?_⟩
+    · intro o i hm; simp only [apply_launches, apply_inc] at hm ⊢
+      exact Nat.le_succ_of_le (h1 o i hm)
+    · intro _ o i hm; simp only [apply_launches, apply_inc] at hm ⊢
+      exact Nat.lt_succ_of_le (h1 o i hm)
+    · simpa [apply_launches] using h3
+    · intro o i hm
+      simp only [apply_launches, apply_inc, apply_resets] at hm ⊢
+      rcases h4 o i hm with a | ⟨k, a, b, c⟩
+      · exact Or.inl (hdm o (by simp) a)
+      · exact Or.inr ⟨k, a, Nat.le_succ_of_le b, c⟩
+    · simpa [apply_launches, apply_resets] using h5
+  all_goals
+    exact launchInv_frame h (by simp [apply_launches]) (by simp [apply_resets]) (by simp [apply_inc])
+      (by simp [apply_phase]) (fun o' => hdm o' (by simp))
+
+theorem launchInv_init (g : List NodeInfo) : LaunchInv (init g) := by
+  constructor <;> simp [init]
+
+theorem reach_launchInv {g : List NodeInfo} {s : State} (h : Reach g s) : LaunchInv s := by
+  induction h with
+  | init => exact launchInv_init g
+  | step hr hen ih => exact launchInv_step hen (reach_objsInv hr) ih
+
 end Martian.Sched
